@@ -78,6 +78,26 @@ def maxdiff(a, b):
     return (max([0.0] + [abs(x - y) for x, y in zip(fa, fb)]), sc)
 
 
+def lattice_columns(f):
+    """the three columns of the lattice frame rotation f = {ax, k, m} (|m| <= 1) as rational axes {n, e}"""
+    if f["ax"] == "i":
+        M = [[1, 0, 0], [0, 1, 0], [0, 0, 1]]
+        e = 0
+    else:
+        k, m = f["k"] % 4, f["m"]
+        c, s_ = [(5, 0), (0, 5), (-5, 0), (0, -5)][k]         # 5 cos, 5 sin of k*90
+        if m:                                                 # times (3 + 4i)/5 or (3 - 4i)/5
+            c, s_ = (3 * c - 4 * m * s_) // 5, (4 * m * c + 3 * s_) // 5
+        e = 1
+        if f["ax"] == "x":
+            M = [[5, 0, 0], [0, c, -s_], [0, s_, c]]
+        elif f["ax"] == "y":
+            M = [[c, 0, s_], [0, 5, 0], [-s_, 0, c]]
+        else:
+            M = [[c, -s_, 0], [s_, c, 0], [0, 0, 5]]
+    return [{"n": [M[0][j], M[1][j], M[2][j]], "e": e} for j in range(3)]
+
+
 class Gen:
     def __init__(self, seed):
         self.r = random.Random(seed)
@@ -188,7 +208,7 @@ class Gen:
         if self.r.random() < 0.6:
             mobile = [i for i, d in enumerate(desc, 1) if NU[d["type"]] > 0]
             for _ in range(self.r.randint(1, 3)):
-                t = self.r.choice(["pip", "pip", "cang", "cspeed", "rod", "rod"])
+                t = self.r.choice(["pip", "pip", "cang", "cspeed", "rod", "rod", "cori"])
                 b1, b2 = self.r.randint(0, nb), self.r.randint(1, nb)
                 if t != "cspeed" and b1 == b2:
                     continue
@@ -198,6 +218,15 @@ class Gen:
                     cons.append({"type": "pip", "b1": b1, "b2": b2, "n": {"n": ax, "e": e}, "h": self.r.randint(-2, 2), "st": vec(), "on": on})
                 elif t == "rod":
                     cons.append({"type": "rod", "b1": b1, "b2": b2, "st": vec(), "st2": vec(), "d": self.r.randint(1, 3), "on": on})
+                elif t == "cori":
+                    # ConstantOrientation(base b1 with frame RB, follower b2 with frame RF): three "constant angle 90 degrees" equations
+                    #   RFx . RBy = 0, RFy . RBz = 0, RFz . RBx = 0 -- in the spec three cang entries sharing one library constraint
+                    fb_, ff_ = self.frame("g", 1)[0], self.frame("g", 1)[0]
+                    cb, cf = lattice_columns(fb_), lattice_columns(ff_)
+                    grp = len(cons)
+                    for part, (fi, bi) in enumerate(((0, 1), (1, 2), (2, 0))):
+                        cons.append({"type": "cang", "b1": b1, "b2": b2, "a1": cb[bi], "a2": cf[fi], "cosn": 0, "cose": 0, "on": on,
+                                     "grp": grp, "part": part, "RB": fb_, "RF": ff_})
                 elif t == "cang":
                     (a1, e1), (a2, e2) = self.r.choice(UAX[:3]), self.r.choice(UAX)
                     cosn, cose = self.r.choice([(0, 0), (0, 0), (3, 1), (-4, 1)])
@@ -649,8 +678,10 @@ def run(pid, tier, rep, replay=None):
             k = d["type"] + ("/rev" if d["rev"] else "")
             types_seen[k] = types_seen.get(k, 0) + 1
         for prop, what, detail in compare(c, want[i], o):
-            if prop != pid:
+            if prop != pid and not os.environ.get("LATTICE_ALL"):      # LATTICE_ALL=1: development aid, report every property's comparisons
                 continue
+            if prop != pid:
+                what = prop + ":" + what
             sig = what if "/" in what else "%s/%s" % (what, "+".join(sorted(set(d["type"] + ("-rev" if d["rev"] else "") for d in c["desc"]))))
             if sig in seen:
                 continue
